@@ -32,6 +32,7 @@ type LoopSpec struct {
 }
 
 type AssertSpec struct {
+	IfAny bool // no site at all is fine
 	Label string
 	Site  string // e.g. "call HandleTx", "store field", "return"
 	Cl    *Clause
@@ -369,7 +370,12 @@ func (cs *Contracts) loadFile(path, pkg string) error {
 				return err
 			}
 			cl.Label = m[1]
-			curF.Asserts = append(curF.Asserts, &AssertSpec{Label: m[1], Site: m[2], Cl: cl})
+			site, anySites := m[2], false
+			if strings.HasSuffix(site, " ifany") {
+				// "… at store F ifany": an invariant about every such site, also when there is none (yet)
+				site, anySites = strings.TrimSuffix(site, " ifany"), true
+			}
+			curF.Asserts = append(curF.Asserts, &AssertSpec{Label: m[1], Site: site, Cl: cl, IfAny: anySites})
 		case "split":
 			// split <label> : <expr> <lo> <hi>
 			m := regexp.MustCompile(`^(\S+)\s*:\s*(.+)\s+(-?\d+)\s+(-?\d+)$`).FindStringSubmatch(rest)
